@@ -242,6 +242,51 @@ def hygiene_case(cid, rng):
     return Case(cid, "\n".join(L + D) + "\n", meta=meta)
 
 
+def unsized_case(cid, rng):
+    """A generic leaf trait whose type parameter is relaxed in the where clause (`where X: ?Sized`), used at `str`."""
+    sel = rng.choice(["", "delegate_by = Self", "delegate_by = ref", "delegate_by = Borrow"])
+    dyn = "ref" in sel or "Borrow" in sel
+    where = rng.choice(["where X: ?Sized", "where X: ?Sized, Self: 'static", "where X: ?Sized + ::core::fmt::Debug"])
+    inline = rng.random() < 0.3
+    if dyn:
+        # `dyn Tr<X> + 'static` is only well-formed for `X: 'static`
+        where = where.replace("X: ?Sized", "X: ?Sized + 'static")
+    head = ("pub trait Tr<X: ?Sized%s>%s" % (" + 'static" if dyn else "", ": 'static" if dyn else "")) if inline else ("pub trait Tr<X>%s %s" % (": 'static" if dyn else "", where))
+    L = ["#[::entrait::entrait(%s)] /*@inv*/" % sel, head + " { fn m0(&self, x: &X, k: i32) -> usize; }"]
+    fid = "%s::Prov::m0" % cid
+    L.append("pub struct Prov { pub name: &'static str }")
+    L.append('impl Tr<str> for Prov { fn m0(&self, x: &str, k: i32) -> usize { ::vrt::enter("%s", ::vrt::tn(self), ::vrt::addr(self), &[&x as &dyn ::core::fmt::Debug, &k as &dyn ::core::fmt::Debug]); x.len() + k as usize } }' % fid)
+    L.append("pub struct NonProv; pub struct AppRef { pub inner: ::std::boxed::Box<dyn Tr<str> + ::core::marker::Send + ::core::marker::Sync> }" if dyn else "pub struct NonProv; pub struct AppRef;")
+    if dyn:
+        L.append("impl ::core::convert::AsRef<dyn Tr<str>> for AppRef { fn as_ref(&self) -> &(dyn Tr<str> + 'static) { &*self.inner } }")
+        L.append("impl ::core::borrow::Borrow<dyn Tr<str>> for AppRef { fn borrow(&self) -> &(dyn Tr<str> + 'static) { &*self.inner } }")
+    D = ["pub fn run() {"]
+    if dyn:
+        D.append('    let app = ::entrait::Impl::new(AppRef { inner: ::std::boxed::Box::new(Prov { name: "p" }) });')
+        D.append('    ::vrt::fact("prov_addr", ::vrt::addr(&*app.inner)); ::vrt::fact("prov_tn", ::vrt::tn_of::<Prov>());')
+        direct = 'app.inner.m0("abc", 2)'
+    else:
+        D.append('    let app = ::entrait::Impl::new(Prov { name: "p" });')
+        D.append('    ::vrt::fact("prov_addr", ::vrt::addr(&*app)); ::vrt::fact("prov_tn", ::vrt::tn(&*app));')
+        direct = '<Prov as Tr<str>>::m0(&*app, "abc", 2)'
+    D.append('    ::vrt::fact("avail_right", ::vrt::implements!(::entrait::Impl<%s>: Tr<str>));' % ("AppRef" if dyn else "Prov"))
+    D.append('    ::vrt::fact("avail_nonprov", ::vrt::implements!(::entrait::Impl<NonProv>: Tr<str>));')
+    D.append('    ::vrt::fact("avail_wrong_selector", ::vrt::implements!(::entrait::Impl<%s>: Tr<str>));' % ("Prov" if dyn else "AppRef"))
+    if dyn:
+        D.append('    ::vrt::fact("avail_plain_provider", ::vrt::implements!(::entrait::Impl<Prov>: Tr<str>));')
+    D.append('    ::vrt::phase("direct:m0"); let r = %s; ::vrt::result(&r); ::vrt::kv("rtn", ::vrt::tn(&r)); ::vrt::record_polls();' % direct)
+    # the call goes through an availability-guarded helper: if `Impl<..>: Tr<str>` does not hold the case must still compile
+    D.append('    ::vrt::phase("impl:m0"); let r = __call(&app); ::vrt::result(&r); ::vrt::kv("rtn", ::vrt::tn(&r)); ::vrt::record_polls();')
+    D.append("}")
+    L.append("pub trait __Fallback { fn m0(&self, _x: &str, _k: i32) -> usize { usize::MAX } }")
+    L.append("impl<T> __Fallback for &T {}")
+    L.append('fn __call<A>(app: &A) -> usize where A: Tr<str> { app.m0("abc", 2) }')
+    meta = {"selector": "unsized:" + (sel or "default"), "dyn": dyn, "notsync": False, "nontrivial": True, "generic": True,
+            "calls": [{"m": "m0", "fn": fid, "args": ['"abc"', "2"], "async": False}],
+            "methods": [head], "opts": [sel], "async_trait": None, "async_methods": [], "no_send": False}
+    return Case(cid, "\n".join(L + D) + "\n", meta=meta)
+
+
 def check_case(c, rep):
     m = c.meta
     if c.removed is not None:
@@ -314,6 +359,9 @@ def run(tier, seed):
     for i in range(n):
         if rng.random() < 0.1:
             cases.append(hygiene_case("c06_%04d" % i, rng))
+            continue
+        if rng.random() < 0.06:
+            cases.append(unsized_case("c06_%04d" % i, rng))
             continue
         sel = rng.choice(["default", "default", "Self", "ref", "ref", "Borrow"])
         cases.append(build_case("c06_%04d" % i, rng, sel))
